@@ -268,6 +268,28 @@ PROPS = {
         ],
         "assumptions": [],
     },
+    "C13": {
+        "required_theorems": ["c13_table", "c13_crc_is_x25", "c13_crc_gate", "c13_bounds", "c13_abort"],
+        "runs": [
+            {"sub": "hdlc", "quick": ["--seed", "{seed}", "--cases", 2500],
+             "thorough": ["--seed", "{seed}", "--cases", 200000], "timeout": 20000},
+        ],
+        "rule": "transmissions built by an independent encoder (flags, LSB-first bytes, bit-serial CRC-16/X.25, stuffing): "
+                "noise prefix (empty, half flags, runs of ones, a flag plus garbage that leaves the deframer mid-frame, random "
+                "bits incl. accidental flags) + 1..4 frames with payload length 0..max+2 (random and stuffing-heavy 0xFF/0x7E/"
+                "0x3F contents), shared or separate or repeated flags, single/double bit corruption in 20% of frames; settings "
+                "min in {0,1,2,3,10}, max in {4,10,20,50,300}, checksum on/off, fix on/off; fed in chunks of 1, 1..9 or "
+                "1..3000 bits. Every transmission: packets compared with the Lean model; clean transmissions also against what "
+                "was framed (in order, once each); plus every single-bit corruption position of sampled frames. "
+                "distinct = distinct request.",
+        "trusted_base": GLOBAL_TB + [
+            "tools/extract.py regenerates FCSTAB, the flag byte, CRC init and xor-out from src/hdlc_deframer.rs on every run "
+            "(lean/RR/Gen/Hdlc.lean); the CRC theorems are proved about the generated table",
+            "the harness encoder (bit-serial CRC, stuffing) is independent of the Lean spec",
+        ],
+        "assumptions": ["the round-trip theorem for every payload (c13_roundtrip) is work in progress: until then round-trip is "
+                        "covered by correspondence + spec lines, the CRC/table/bounds/gate statements by theorems"],
+    },
 }
 
 MANIFEST_TEXT = {
@@ -421,6 +443,18 @@ MANIFEST_TEXT = {
         "design_ref": "DESIGN.md section 2, C16",
         "note": "The repeat(0) defects of FileSource/SigMFSource and the VectorSource::first duplication were repaired by fix: commits.",
         "technique": "Lean 4 proof (induction over consumption schedules) + exhaustive API correspondence + spec check on real files",
+    },
+    "C13": {
+        "text": "Lean 4 theorems over a bit-for-bit model of update_state/calc_crc/find_right_crc whose CRC table and constants "
+                "are regenerated from the source on every run: the table is the 256 remainders of the reflected polynomial "
+                "0x8408 (kernel-evaluated over all entries) and calc_crc equals bit-serial CRC-16/X.25 on every byte string "
+                "(table step checked for all 65536 register values, lifted by induction); every packet emitted with checking on "
+                "has a verifying checksum; the accepted length bounds exactly; 7 ones abort. The round trip is tied by "
+                "correspondence with an independent encoder and by spec lines on clean transmissions.",
+        "design_ref": "DESIGN.md section 2, C13",
+        "note": "Five deframer defects were repaired by fix: commits (len<2 panic, max_size equality, shared-zero flags, flag in "
+                "progress lost at the too-long reset). Error-detection theorems (odd weight, 2-bit) are not yet proved.",
+        "technique": "Lean 4 proof over a model with translator-generated CRC table + differential correspondence with an independent encoder",
     },
 }
 
